@@ -17,10 +17,10 @@ A  == Tr[l].a            \* the call: act, arguments, out, (val)
 Post == Tr[l].post       \* what the public API showed after the call
 
 Call ==
-  CASE A.act = "newatoms"  -> NewAtoms(A.k, A.C, A.Q)
-    [] A.act = "newmol"    -> NewMol(A.m, A.n, A.C, A.Q)
-    [] A.act = "newlist"   -> NewList(A.ms)
-    [] A.act = "newcopy"   -> NewCopy
+  CASE A.act = "newatoms"  -> NewAtoms(A.form, A.k, A.a, A.C, A.Q)
+    [] A.act = "newmol"    -> NewMol(A.m, A.n, A.a, A.C, A.Q)
+    [] A.act = "newlist"   -> NewList(A.ms, A.n)
+    [] A.act = "newcopy"   -> NewCopy(A.n)
     [] A.act = "append"    -> AppendC(A.m)
     [] A.act = "extlist"   -> ExtendList(A.ms)
     [] A.act = "extens"    -> ExtendEns(A.o, A.how)
